@@ -178,7 +178,8 @@ def audit():
 def build_models():
     """Compile all Model/*.v, extract them, build the OCaml driver (cached by hash)."""
     models = sorted(glob.glob(os.path.join(THEORIES, "Model", "*.v")))
-    ok, out = coq_make([os.path.relpath(m, COQ) + "o" for m in models] + ["theories/Proofs/VarScopeProofs.vo"])
+    translate()
+    ok, out = coq_make(["theories/Gen/Linkage.vo"] + [os.path.relpath(m, COQ) + "o" for m in models] + ["theories/Proofs/VarScopeProofs.vo"])
     if not ok:
         return False, out
     with Lock("extract"):
